@@ -19,6 +19,7 @@ type simHooks struct {
 	onFaultOn     func(owner any, name string, subject any, hit int64) error
 	onPointAlways func(name string)
 	onGo          func(name string)
+	onDone        func(owner any, name string)
 	sched         *Sched
 }
 
@@ -50,6 +51,7 @@ func ResetHooks(sc *Scenario) {
 	hooks.onFaultOn = nil
 	hooks.onPointAlways = nil
 	hooks.onGo = nil
+	hooks.onDone = nil
 	hooks.sched = nil
 }
 
@@ -128,6 +130,9 @@ func (h *simHooks) Go(owner any, name string) {
 }
 
 func (h *simHooks) Done(owner any, name string) {
+	if f := h.onDone; f != nil {
+		f(owner, name)
+	}
 	if s := h.sched; s != nil {
 		s.goEnd(owner, name)
 	}
